@@ -18,7 +18,8 @@ Every theorem quantifies over every world reachable from the empty one by ANY hi
       end_leaves_nothing
 (d) re-creation with other settings
       recreate_after_removal, open_after_recreate_sees_new_settings
-(e) every call ends with a service or a documented error
+(e) every call ends with a service or a documented error (incl. the errors of a service resource that is
+    refused after the static config was written: `lateFails`; by `failed_call_unchanged` nothing stays behind)
       create_outcome_documented, clamped_create_never_panics, open_outcome_documented,
       ooc_outcome_documented
     (Before fix 0c61d51 the publish-subscribe builders of slice payloads — all language bindings — skipped
@@ -90,7 +91,7 @@ theorem create_ok_fresh (w w' : World) (n s h : Nat) (p q : Pat) (r : Req) (c : 
       have h2 : (createCore w n h ⟨s, p⟩ r).2 = .okCfg q c := by rw [hs]
       have h1 : (createCore w n h ⟨s, p⟩ r).1 = w' := by rw [hs]
       rw [createCore_ok_iff] at h2
-      obtain ⟨hp, hf, hz, hq, hc⟩ := h2
+      obtain ⟨hp, hf, hlate, hz, hq, hc⟩ := h2
       refine ⟨hf, hq, hc, ?_⟩
       unfold createCore at h1
       dsimp only at h1
@@ -98,7 +99,7 @@ theorem create_ok_fresh (w w' : World) (n s h : Nat) (p q : Pat) (r : Req) (c : 
       dsimp only at h1
       rw [hf] at h1
       dsimp only at h1
-      rw [hz] at h1
+      rw [hlate, hz] at h1
       simp only [Bool.false_eq_true, if_false] at h1
       subst h1
       refine ⟨{ key := ⟨s, p⟩, uid := w.nextUid, cfg := mkSettings p r, regs := [n], creq := r }, ?_, hc.symm, rfl, rfl⟩
@@ -220,7 +221,7 @@ theorem ooc_returns_settings (w w' : World) (n s h : Nat) (p q : Pat) (r : Req) 
               rw [createCore_ok_iff] at h2
               right
               refine ⟨h2.2.1, ?_⟩
-              rw [h2.2.2.2.2, ← hr']
+              rw [h2.2.2.2.2.2, ← hr']
             · simp [he] at hs
           | okCfg q' c' =>
             dsimp only at hs
@@ -418,7 +419,7 @@ theorem never_zero_capacity (p : Pat) (r : Req) : zeroCap (fieldsOf p) (mkSettin
 /-- after the last user is gone the same name can be created again, with any (valid) settings -/
 theorem recreate_after_removal {w : World} (hr : Reachable w) (n s h : Nat) (p : Pat) (r : Req)
     (hu : ¬ userOf w ⟨s, p⟩) (hl : labelUsed w h = false) (hn : hasNode w n = true)
-    (hpre : preCheck p r (mkSettings p r).vals = none) :
+    (hpre : preCheck p r (mkSettings p r).vals = none) (hlate : lateFails p r = false) :
     (step w (.create n s h p r)).2 = .okCfg p (mkSettings p r) ∧
     ∃ svc, findSvc (step w (.create n s h p r)).1 ⟨s, p⟩ = some svc ∧ svc.cfg = mkSettings p r := by
   have hf : findSvc w ⟨s, p⟩ = none := by
@@ -430,7 +431,7 @@ theorem recreate_after_removal {w : World} (hr : Reachable w) (n s h : Nat) (p :
     simp only [step, hl, hn]
     simp only [Bool.false_eq_true, if_false, Bool.not_true]
     rw [createCore_out]
-    simp [hpre, hf, hz]
+    simp [hpre, hf, hz, hlate]
   refine ⟨h2, ?_⟩
   obtain ⟨-, -, -, svc, hs, hc, -⟩ := create_ok_fresh w _ n s h p p r (mkSettings p r) (Prod.ext rfl h2)
   exact ⟨svc, hs, hc⟩
@@ -452,9 +453,10 @@ theorem open_after_recreate_sees_new_settings (w : World) (n n2 s h h2 : Nat) (p
 /-! ## (e) every call returns a service or a documented error -/
 
 def createErrors : Pat → List String
-  | .ps => ["AlreadyExists", "SubscriberBufferMustBeLargerThanHistorySize"]
-  | .bb => ["AlreadyExists", "NoEntriesProvided"]
-  | _ => ["AlreadyExists"]
+  | .ps => ["AlreadyExists", "SubscriberBufferMustBeLargerThanHistorySize", "UnableToAcquireTypeDefinition"]
+  | .bb => ["AlreadyExists", "NoEntriesProvided", "ServiceInCorruptedState"]
+  | .rr => ["AlreadyExists", "UnableToAcquireTypeDefinition"]
+  | .ev => ["AlreadyExists"]
 
 def openErrors (p : Pat) : List String :=
   ["DoesNotExist", typeErr p, "IncompatibleAttributes", "ExceedsMaxNumberOfNodes"] ++ (fieldsOf p).map (·.err)
@@ -488,9 +490,14 @@ theorem create_outcome_cases (w : World) (n s h : Nat) (p : Pat) (r : Req) :
           right; right; right; left
           exact ⟨"AlreadyExists", by cases p <;> simp [createErrors], rfl⟩
         · simp only [hex]
-          by_cases hz : zeroCap (fieldsOf p) (mkSettings p r).vals = true
-          · simp [hz]
-          · simp [hz]
+          by_cases hlate : lateFails p r = true
+          · simp only [hlate, if_true]
+            right; right; right; left
+            refine ⟨lateErr p, ?_, rfl⟩
+            cases p <;> simp_all [createErrors, lateErr, lateFails]
+          · by_cases hz : zeroCap (fieldsOf p) (mkSettings p r).vals = true
+            · simp [hz, hlate]
+            · simp [hz, hlate]
     · simp [hl, hn]
 
 /-- every builder adjusts its configuration (the slice-typed publish-subscribe builders since fix 0c61d51), so
@@ -517,7 +524,7 @@ theorem create_outcome_documented (w : World) (n s h : Nat) (p : Pat) (r : Req) 
 finding slice-payload-zero-limit-panics): the service is created with max_subscribers = 1 -/
 def sliceReq : Req :=
   { vals := [none, some 0, none, none, none, none, none], types := [⟨1, "u8", 1, 1⟩, ⟨0, "()", 0, 1⟩],
-    attrs := [], keys := [], entries := 1 }
+    attrs := [], keys := [], entries := 1, lateFail := false }
 
 example : (step (step World.init (.node 0)).1 (.create 0 0 0 .ps sliceReq)).2 =
     .okCfg .ps { vals := [2, 1, 2, 0, 2, 1, 2], types := [⟨1, "u8", 1, 1⟩, ⟨0, "()", 0, 1⟩], attrs := [] } := by
@@ -634,11 +641,11 @@ theorem ooc_outcome_documented (w : World) (n s h : Nat) (p : Pat) (r : Req) :
 def exU64 : TypeDetail := ⟨0, "u64", 8, 8⟩
 def exUnit : TypeDetail := ⟨0, "()", 0, 1⟩
 /-- `create … ps mp=3 mn=0 ad=0:1` -/
-def exReqA : Req := { vals := [some 3, none, none, none, none, none, some 0], types := [exU64, exUnit], attrs := [(0, 1)], keys := [], entries := 1 }
+def exReqA : Req := { vals := [some 3, none, none, none, none, none, some 0], types := [exU64, exUnit], attrs := [(0, 1)], keys := [], entries := 1, lateFail := false }
 /-- `… ps mp=2 ak=0` -/
-def exReqB : Req := { vals := [some 2, none, none, none, none, none, none], types := [exU64, exUnit], attrs := [], keys := [0], entries := 1 }
+def exReqB : Req := { vals := [some 2, none, none, none, none, none, none], types := [exU64, exUnit], attrs := [], keys := [0], entries := 1, lateFail := false }
 /-- `open … ps mp=4 o=0` -/
-def exReqC : Req := { vals := [some 4, none, none, none, none, some 0, none], types := [exU64, exUnit], attrs := [], keys := [], entries := 1 }
+def exReqC : Req := { vals := [some 4, none, none, none, none, some 0, none], types := [exU64, exUnit], attrs := [], keys := [], entries := 1, lateFail := false }
 def exCfgA : Settings := { vals := [3, 3, 2, 0, 2, 1, 1], types := [exU64, exUnit], attrs := [(0, 1)] }
 
 /-- one creation wins, the second is refused; the opener sees the creator's settings (max_nodes 0 adjusted
@@ -652,13 +659,25 @@ example : (run World.init [.node 0, .node 1, .create 0 0 0 .ps exReqA, .create 1
    .okCfg .ps { vals := [2, 3, 2, 0, 2, 1, 2], types := [exU64, exUnit], attrs := [] }] := by
   rfl
 
-def exReqE : Req := { vals := [some 0, none, none, none, some 5, none, none, none], types := [], attrs := [], keys := [], entries := 1 }
+def exReqE : Req := { vals := [some 0, none, none, none, some 5, none, none, none], types := [], attrs := [], keys := [], entries := 1, lateFail := false }
 
 /-- open_or_create creates (0 notifiers adjusted to 1), a port keeps the service alive after the factory is
 gone, the files disappear with the last port -/
 example : (run World.init [.node 0, .ooc 0 0 0 .ev exReqE, .port 0 0 2, .port 0 1 2, .drop 0, .exists_ 0 .ev, .ls, .dport 0, .ls]).2 =
   [.ok, .okCfg .ev { vals := [1, 2, 255, 2, 5, 0, 0, 0], types := [], attrs := [] }, .ok, .err 0 "ExceedsMaxSupportedNotifiers",
    .ok, .bool true, .files 1 1 0, .ok, .files 0 0 0] := by
+  rfl
+
+/-- `create … bb e=2 dup=1` (the same key added twice) -/
+def exReqDup : Req := { vals := [none, none], types := [exU64], attrs := [], keys := [], entries := 2, lateFail := true }
+def exReqBb : Req := { vals := [none, none], types := [exU64], attrs := [], keys := [], entries := 2, lateFail := false }
+
+/-- a create that is refused late (after the static config was written) leaves nothing: the service does not
+exist, no file, an opener gets DoesNotExist, the same name can be created -/
+example : (run World.init [.node 0, .node 1, .create 0 0 0 .bb exReqDup, .exists_ 0 .bb, .ls, .open_ 1 0 1 .bb exReqBb,
+    .create 0 0 0 .bb exReqBb, .ls]).2 =
+  [.ok, .ok, .err 0 "ServiceInCorruptedState", .bool false, .files 0 0 0, .err 0 "DoesNotExist",
+   .okCfg .bb { vals := [2, 2], types := [exU64], attrs := [] }, .files 1 1 1] := by
   rfl
 
 /-- the hypotheses of `recreate_after_removal` / `never_later` are satisfiable in a reachable world -/
